@@ -1,12 +1,14 @@
 // ---- unit prelude: topic_limit (C15) ---------------------------------------------------------------
 
 // A-float: `Topic::is_almost_full` compares against `(limit as f64 * 0.9) as u64`; floats are outside Verus'
-// subset. Uninterpreted, with the one fact the property needs: a full topic is almost full.
+// subset. Uninterpreted, with the one fact the property needs — a full topic is almost full — and the float-free
+// half of its body: the `Unlimited` and `ServerDefault` arms return false (so dropping the redundant
+// `is_unlimited()` test in the maintenance pass is not an alarm).
 pub uninterp spec fn almost_full(t: &Topic) -> bool;
 impl Topic {
     #[verifier::external_body]
     pub fn is_almost_full(&self) -> (r: bool)
-        ensures r == almost_full(self), topic_full(self) ==> r,
+        ensures r == almost_full(self), topic_full(self) ==> r, !(self.max_topic_size is Custom) ==> !r,
     { unimplemented!() }
 }
 
